@@ -36,8 +36,8 @@ pub enum Op {
 pub struct Program {
   pub tree: Spec,
   pub threads: Vec<Vec<Op>>,
-  /// Some(k): the shared tree is built through `build_observed` (observer k after every mutating call),
-  /// so its ReplaceSources have been observed, mutated again and only then shared
+  /// Some(k): the shared tree is built through `build_stale` (observer k after every mutating call of a
+  /// ReplaceSource but the last), so its ReplaceSources have been observed, mutated again and only then shared
   #[serde(default)]
   pub warm: Option<u8>,
 }
@@ -45,7 +45,7 @@ pub struct Program {
 fn build_shared(p: &Program) -> BoxSource {
   match p.warm {
     None => build(&p.tree),
-    Some(k) => crate::build::build_observed(&p.tree, &mut |s| match k % 4 {
+    Some(k) => crate::build::build_stale(&p.tree, &mut |s| match k % 4 {
       0 => {
         let _ = s.source();
       }
